@@ -19,13 +19,16 @@ import (
 const prop = "C10"
 
 type Case struct {
-	SB       int         `json:"sb"`
-	Base     []hist.Op   `json:"base"`
-	Sessions [][]hist.Op `json:"sessions"`
+	// NoRebalance: the name index of dense attribute storage is not rebalanced on deletes (a documented writer option /
+	// toggle; content must not depend on it)
+	NoRebalance bool        `json:"no_rebalance,omitempty"`
+	SB          int         `json:"sb"`
+	Base        []hist.Op   `json:"base"`
+	Sessions    [][]hist.Op `json:"sessions"`
 }
 
 func gen(t *rapid.T) Case {
-	c := Case{SB: rapid.SampledFrom([]int{2, 2, 0, 3}).Draw(t, "sb")}
+	c := Case{SB: rapid.SampledFrom([]int{2, 2, 0, 3}).Draw(t, "sb"), NoRebalance: rapid.IntRange(0, 3).Draw(t, "noRebalance") == 0}
 	type info struct {
 		path    string
 		d       *hist.DSpec
@@ -75,7 +78,7 @@ func gen(t *rapid.T) Case {
 		n := rapid.SampledFrom([]int{0, 1, 2, 4, 10}).Draw(t, "nops")
 		for i := 0; i < n; i++ {
 			o := dss[rapid.IntRange(0, len(dss)-1).Draw(t, "obj")]
-			kind := rapid.SampledFrom([]string{"attr", "attr", "attr", "delattr", "write", "create", "mkgroup", "fit", "fit", "resize", "hard", "burst", "gattr", "focus", "focus"}).Draw(t, "k")
+			kind := rapid.SampledFrom([]string{"attr", "attr", "attr", "delattr", "write", "create", "mkgroup", "fit", "fit", "resize", "hard", "burst", "gattr", "focus", "focus", "wbig"}).Draw(t, "k")
 			focusOn := func(o info) {
 				// several operations in a row on ONE object, through its handle and around it (links): the routes by which an
 				// object header gets rewritten have to stay in step
@@ -123,6 +126,10 @@ func gen(t *rapid.T) Case {
 				for j := 0; j < rapid.SampledFrom([]int{3, 9, 12}).Draw(t, "burst"); j++ {
 					ops = append(ops, hist.Op{K: "attr", Path: o.path, Name: fmt.Sprintf("burst%d", j), A: &hist.AttrVal{Kind: []string{"i32", "str", "f64"}[j%3], N: 5, Seed: j + s}})
 				}
+			case "wbig":
+				// a value larger than a dense attribute heap object can be (64 KiB): refused or stored, never at the cost of
+				// the attributes that are already there
+				ops = append(ops, hist.Op{K: "attr", Path: o.path, Name: "big", A: &hist.AttrVal{Kind: "[]f64", N: 9000, Seed: 1}})
 			case "gattr":
 				if inGroup {
 					ops = append(ops, hist.Op{K: "attr", Path: "/g", Name: rapid.SampledFrom(names).Draw(t, "aname"), A: &hist.AttrVal{Kind: "i32", Seed: rapid.IntRange(0, 999).Draw(t, "aseed")}})
@@ -202,10 +209,15 @@ func sha(file string) string {
 func run(c Case) vt.Verdict {
 	file := filepath.Join(vt.GetEnv().Scratch, fmt.Sprintf("c10-%d.h5", os.Getpid()))
 	defer os.Remove(file)
-	ex, err := hist.NewExec(file, c.SB)
+	var wopts []interface{}
+	if c.NoRebalance {
+		wopts = append(wopts, hdf5.WithBTreeRebalancing(false))
+	}
+	ex, err := hist.NewExec(file, c.SB, wopts...)
 	if err != nil {
 		return vt.Bad("CreateForWrite: %v", err)
 	}
+	ex.NoRebalance = c.NoRebalance
 	defer ex.Close()
 	for i, op := range c.Base {
 		st := ex.Apply(op)
@@ -259,6 +271,20 @@ func run(c Case) vt.Verdict {
 		}
 		if v := check(fmt.Sprintf("after session %d (%d ops)", s, len(ops))); v != nil {
 			return *v
+		}
+	}
+	// the stored bytes after the last session, as an independent decoder sees them (structure counts, heap and index
+	// consistency, raw bytes of every type): equal to the model
+	if data, err := os.ReadFile(file); err == nil {
+		res := hist.CompareIndep(ex.M, data)
+		if res.DecodeErr != "" {
+			return vt.Bad("after the last session the independent decoder cannot decode the file: %s", res.DecodeErr)
+		}
+		for _, p := range res.Problems {
+			if p.Kind == "indep-refcount" {
+				continue
+			}
+			return vt.Bad("after the last session the independent decoder disagrees with the model: %s", p)
 		}
 	}
 	return vt.Pass()
